@@ -804,12 +804,17 @@ impl Store {
             }
             (Some(ValueEntry::Cas(current, _)), ValueEntry::Cas(val, v), true) => {
                 // cas value present, we can insert new cas value if insertion is forced
-                (true, current != &val, ValueEntry::Cas(val, v + 1))
+                (
+                    true,
+                    current != &val,
+                    ValueEntry::Cas(val, v.saturating_add(1)),
+                )
             }
             (Some(ValueEntry::Cas(current, v_curr)), ValueEntry::Cas(val, v), false)
-                if v_curr == &v =>
+                if v_curr == &v && v < CasVersion::MAX =>
             {
                 // cas value present, we can insert new cas value if the version matches
+                // and can still be incremented (it must never wrap around to a lower version)
                 (true, current != &val, ValueEntry::Cas(val, v + 1))
             }
             (Some(ValueEntry::Cas(_, _)), ValueEntry::Cas(_, _), false) => {
